@@ -170,18 +170,60 @@ theorem C39_prev_checked (P : Prims) (b : Block) (sr : Hash) (l : Ledger) (h : b
     Untouched (addBlock P b sr l) l :=
   untouched_of_not_acceptable fun a => h a.tip
 
-/-- the same on the consensus path -/
-theorem C39_prev_checked_submit (P : Prims) (b : Block) (l : Ledger) (h : b.hdr.u.prev ≠ l.mem.curHash) :
-    Untouched (submitBlock P b l) l := by
-  have hp : ∃ s ∈ submitBlockSteps P b, Step.passes l s = false :=
-    ⟨.guard "block.Header.PrevBlockHash != this.GetCurrentBlockHash()" (fun l => if b.hdr.u.prev ≠ l.mem.curHash then some .prevTip else none),
-      by simp [submitBlockSteps, heightGuards], by simp [Step.passes, h]⟩
+private theorem submit_untouched_of_failing_step {P : Prims} {b : Block} {l : Ledger}
+    (hp : ∃ s ∈ submitBlockSteps P b, Step.passes l s = false) : Untouched (submitBlock P b l) l := by
   have na : (submitBlock P b l).1 ≠ .added := by
     rcases run_guardsFirst _ (submitBlock_guardsFirst P b) l with ⟨h1, _, _⟩ | ⟨_, h2⟩
     · exact h1
     · obtain ⟨s, hs, hf⟩ := hp
       rw [h2 s hs] at hf; cases hf
   exact ⟨na, C39_reject_noop_submit P b l na⟩
+
+/-- the same on the consensus path -/
+theorem C39_prev_checked_submit (P : Prims) (b : Block) (l : Ledger) (h : b.hdr.u.prev ≠ l.mem.curHash) :
+    Untouched (submitBlock P b l) l :=
+  submit_untouched_of_failing_step
+    ⟨.guard "block.Header.PrevBlockHash != this.GetCurrentBlockHash()" (fun l => if b.hdr.u.prev ≠ l.mem.curHash then some .prevTip else none),
+      by simp [submitBlockSteps, heightGuards], by simp [Step.passes, h]⟩
+
+/-! ### the header cache never excuses the signature check
+
+Headers that arrived through `AddHeader` (header sync) sit in the header cache under their hash, and the hash covers only the
+unsigned fields.  `verifyHeader` consults that cache for the PREVIOUS header only.  The ledger `l` in `C39_signatures_checked` is
+arbitrary, so the theorem already holds for every header-cache content; the statements below make that explicit, including the case
+in which the cache holds a header with the very hash of the arriving block (the block's own valid header, delivered earlier). -/
+
+theorem C39_signatures_checked_any_header_cache (P : Prims) (b : Block) (sr : Hash) (l : Ledger) (cache : List (Hash × Hdr))
+    (h : verifyMulti P (P.hdrHash b.hdr.u) b.hdr.keys (OntVerif.Gen.Quorum.ledgerStore_m b.hdr.keys.length) b.hdr.sigs ≠ none) :
+    Untouched (addBlock P b sr { l with mem := { l.mem with hdrCache := cache } }) { l with mem := { l.mem with hdrCache := cache } } :=
+  C39_signatures_checked P b sr _ h
+
+/-- in particular after the block's own valid header went through `AddHeader` -/
+theorem C39_signatures_checked_after_own_header (P : Prims) (b : Block) (sr : Hash) (l : Ledger) (valid : Hdr)
+    (_same : P.hdrHash valid.u = P.hdrHash b.hdr.u)
+    (h : verifyMulti P (P.hdrHash b.hdr.u) b.hdr.keys (OntVerif.Gen.Quorum.ledgerStore_m b.hdr.keys.length) b.hdr.sigs ≠ none) :
+    Untouched (addBlock P b sr (addHeader P valid l).2) (addHeader P valid l).2 :=
+  C39_signatures_checked P b sr _ h
+
+/-- and on the consensus path (`ExecuteBlock` + `SubmitBlock`), for every ledger hence every header-cache content -/
+theorem C39_signatures_checked_submit (P : Prims) (b : Block) (l : Ledger)
+    (h : verifyMulti P (P.hdrHash b.hdr.u) b.hdr.keys (OntVerif.Gen.Quorum.ledgerStore_m b.hdr.keys.length) b.hdr.sigs ≠ none) :
+    Untouched (submitBlock P b l) l :=
+  submit_untouched_of_failing_step
+    ⟨.guard "verifyHeader: VerifyMultiSignature"
+        (fun _ => verifyMulti P (P.hdrHash b.hdr.u) b.hdr.keys (OntVerif.Gen.Quorum.ledgerStore_m b.hdr.keys.length) b.hdr.sigs),
+      by simp [submitBlockSteps, verifyHeaderSteps],
+      by
+        cases hv : verifyMulti P (P.hdrHash b.hdr.u) b.hdr.keys (OntVerif.Gen.Quorum.ledgerStore_m b.hdr.keys.length) b.hdr.sigs with
+        | none => exact absurd hv h
+        | some e => simp [Step.passes, hv]⟩
+
+/-- bookkeeper set replaced (same header hash): refused for every header-cache content, both paths use the same guard list -/
+theorem C39_bookkeeper_checked_any_header_cache (P : Prims) (b : Block) (sr : Hash) (l : Ledger) (cache : List (Hash × Hdr)) (ph : Hdr)
+    (hp : lookupHeader { l with mem := { l.mem with hdrCache := cache } } b.hdr.u.prev = some ph)
+    (h : P.addrOf b.hdr.keys ≠ some ph.u.nextBk) :
+    Untouched (addBlock P b sr { l with mem := { l.mem with hdrCache := cache } }) { l with mem := { l.mem with hdrCache := cache } } :=
+  C39_bookkeeper_checked P b sr _ ph hp h
 
 /-- the scenario that the unrepaired code accepted (replay `A 1 fork;os1:prev=f`, kept in corpus/C39): a second signed header for
 height 1 is put into the header cache by `AddHeader`, the regular block 1 is added, and a correctly signed block 2 names the
@@ -296,6 +338,13 @@ example : (addBlock P0 B2 [] L1).1 = .rejected .stateRoot := by decide
 example : (addBlockBytes P0 (resign { B2.hdr.u with txRoot := [] }) (stateRootOf P0 L1 B2) L1).1 = .rejected .txRoot := by decide
 example : (addBlock P0 { B2 with hdr := { B2.hdr with sigs := [] } } (stateRootOf P0 L1 B2) L1).1 = .rejected .sigCount := by decide
 example : (addBlock P0 { B2 with hdr := { B2.hdr with keys := [2], sigs := [sign P0 2 B2.hdr.u] } } (stateRootOf P0 L1 B2) L1).1 = .rejected .bkMismatch := by decide
+-- the block's own valid header is in the header cache (delivered by AddHeader); the block then arrives without signatures / with
+-- another key: refused on both paths, the ledger (header cache included) untouched
+example : (addHeader P0 B2.hdr L1).1 = .added := by decide
+example : (addBlock P0 { B2 with hdr := { B2.hdr with sigs := [] } } (stateRootOf P0 L1 B2) (addHeader P0 B2.hdr L1).2).1 = .rejected .sigCount := by decide
+example : (submitBlock P0 { B2 with hdr := { B2.hdr with sigs := [] } } (addHeader P0 B2.hdr L1).2).1 = .rejected .sigCount := by decide
+example : (addBlock P0 { B2 with hdr := { B2.hdr with keys := [2], sigs := [sign P0 2 B2.hdr.u] } } (stateRootOf P0 L1 B2) (addHeader P0 B2.hdr L1).2).1 = .rejected .bkMismatch := by decide
+example : (addBlock P0 B2 (stateRootOf P0 L1 B2) (addHeader P0 B2.hdr L1).2).1 = .added := by decide
 -- raw mutation (signature left): caught by the signature check
 example : (addBlock P0 { B2 with hdr := { B2.hdr with u := { B2.hdr.u with consData := 5 } } } (stateRootOf P0 L1 B2) L1).1 = .rejected .sigInvalid := by decide
 end examples
